@@ -432,7 +432,7 @@
      ;(check-nary-loop-args 'ra:map (lambda (x) x) f lss)
      (let recr ((lss lss))
        (when (ra:pair? (car lss))
-         (tree-map/n f (map kons-tree lss))
+         (tree-for-each/n f (map kons-tree lss))
          (recr (map kons-rest lss)))))))
 
 ;; [RaListof X] -> [Listof X]
